@@ -80,7 +80,7 @@ func (ctx Ctx) coqTypeOfType(n ast.Node, t types.Type) coq.Type {
 			return coq.TypeIdent("uint64T")
 		case "uint32":
 			return coq.TypeIdent("uint32T")
-		case "byte":
+		case "byte", "uint8":
 			return coq.TypeIdent("byteT")
 		case "bool":
 			return coq.TypeIdent("boolT")
